@@ -40,7 +40,7 @@ def reference(pts, knees_idx, segs, wide, npts, extremes):
     new = []
     for (l, r), w, k in zip(segs, wide, npts):
         if w:
-            inc = (r - l) // k
+            inc = (abs(r - l) // k) * (1 if r >= l else -1)        # whole index steps towards the far end of the gap (also for a right-to-left gap)
             new += [l + (j + 1) * inc for j in range(k)]
     allk = sorted(set(list(knees_idx) + new + ([0, n - 1] if extremes else [])))
     out = []
@@ -91,7 +91,11 @@ def one(ctx, variant, pts, reduced, knees, tx, ty, extremes, family):
         m = d.call('add_even_knees', [str(n), hs, core.nats(knees), core.nats(wide), core.nats(npts), '1' if extremes else '0'])
     m = core.parse_nats(m[0])
     ctx.corr_checked += 1
-    if m != out:
+    if variant != 'add_points_even' and any(a > b for a, b in zip(knees, knees[1:])):
+        # markers listed out of order: the gaps between CONSECUTIVE markers then run right-to-left; the model (natural-number gaps) covers
+        # ascending marker lists only, the direct predicates above judge these cases
+        ctx.tag('markers-not-ascending(predicate only)')
+    elif m != out:
         ctx.fail('correspondence', 'addEven' if variant == 'add_points_even' else 'addEvenKnees', site, case, dict(impl=out, model=m, wide=wide, npts=npts))
     # exact-Q decisions on conclusive cases
     if concl:
@@ -136,6 +140,8 @@ def run(ctx):
             # markers variant: knees anywhere on the curve, both ends included (zero-length end gaps), and the empty marker list (one gap 0..n-1)
             lo, hi = (0, n) if rng.random() < 0.3 else (1, n - 1)
             knees = sorted(rng.sample(range(lo, hi), rng.randrange(0 if rng.random() < 0.1 else 1, min(hi - lo, 6) + 1)))
+            if len(knees) >= 2 and rng.random() < 0.12:
+                rng.shuffle(knees)                          # the marker list in another order: right-to-left gaps
             one(ctx, 'add_points_even_knees', pts, list(range(n)), knees, tx, ty, extremes, fam)
 
 
